@@ -173,3 +173,38 @@ pub fn errno_name(e: i32) -> String {
     };
     if n.is_empty() { format!("errno {}", e) } else { format!("{}({})", n, e) }
 }
+
+/// The parent's own descriptor layout: the standard descriptors in `mask` (bit s = descriptor s) are closed for as long
+/// as this value lives, and put back when it is dropped.  PROC_LOCK is held only while the layout is made and unmade.
+pub struct StdHoles(Vec<(i32, i32)>);
+
+impl StdHoles {
+    pub fn make(mask: u8) -> StdHoles {
+        let _g = inspect::proc_guard();
+        let mut v = vec![];
+        for s in 0..3 {
+            if mask & (1 << s) != 0 {
+                unsafe {
+                    let keep = libc::syscall(libc::SYS_fcntl, s, libc::F_DUPFD_CLOEXEC, 100) as i32;
+                    if keep >= 0 {
+                        libc::syscall(libc::SYS_close, s);
+                        v.push((s, keep));
+                    }
+                }
+            }
+        }
+        StdHoles(v)
+    }
+}
+
+impl Drop for StdHoles {
+    fn drop(&mut self) {
+        let _g = inspect::proc_guard();
+        for (s, keep) in self.0.drain(..) {
+            unsafe {
+                libc::syscall(libc::SYS_dup3, keep, s, 0);
+                libc::syscall(libc::SYS_close, keep);
+            }
+        }
+    }
+}
